@@ -13,7 +13,8 @@ let () =
       let line = input_line ic in
       if line <> "" then begin
         match split_tab line with
-        | id :: fs -> print_string id; print_char '\t'; print_endline (f fs)
+        | id :: fs -> print_string id; print_char '\t';
+          print_endline (try f fs with e -> "MODEL-EXCEPTION:" ^ Printexc.to_string e)
         | [] -> ()
       end
     done
